@@ -516,7 +516,7 @@ fn read_or_fallback<S: StateRead>(
     mut key: Key,
     num_values: usize,
 ) -> Result<Vec<Vec<Word>>, S::Error> {
-    let mut out = Vec::with_capacity(num_values);
+    let mut out = Vec::new();
     match post.state.get(&contract_addr) {
         Some(contract_state) => {
             for _ in 0..num_values {
